@@ -1,9 +1,72 @@
 import ZbossModel.Crc
+import ZbossModel.Frame
 /-! Dispatch of line-protocol operations to the executable model. -/
 namespace Zboss.Ops
 open Zboss Zboss.Crc
 
 def hex16 (n : Nat) : String := toHex [UInt8.ofNat (n / 256), UInt8.ofNat (n % 256)]
+
+def showErr : Err → String
+  | .invalidFrame => "invalidFrame"
+  | .valueError => "valueError"
+  | .keyError => "keyError"
+
+def showHL : Option HLPacket → String
+  | none => "none"
+  | some ⟨none, d⟩ => "raw:" ++ toHex d
+  | some ⟨some h, d⟩ => "hdr=" ++ toString h.toNat ++ ":" ++ toHex d
+
+def showFrame (f : Frame) : String := "ll=" ++ toString f.ll.toNat ++ " hl=" ++ showHL f.hl
+
+def llFields (h : LL) : String :=
+  s!"{h.toNat} {LL.sig h} {LL.size h} {LL.ftype h} {LL.flags h} {LL.crc h}"
+
+def hlFields (h : HLH) : String := s!"{h.toNat} {HLH.version h} {HLH.ctype h} {HLH.id h}"
+
+def parseHdr (s : String) : Option (Option HLH) :=
+  if s == "-" then some none else s.toNat?.map (fun n => some (BitVec.ofNat 32 n))
+
+def handleFrame : List String → Option String
+  | ["ll", n, setter, v] => do
+    let n ← n.toNat?; let v ← v.toNat?
+    let h : LL := BitVec.ofNat 56 n
+    let r ← match setter with
+      | "none" => some h
+      | "sig" => some (LL.withSig h v)
+      | "size" => some (LL.withSize h v)
+      | "type" => some (LL.withType h v)
+      | "flags" => some (LL.withFlags h v)
+      | "crc" => some (LL.withCrc h v)
+      | _ => none
+    pure (llFields r)
+  | ["hl", n, setter, v] => do
+    let n ← n.toNat?; let v ← v.toNat?
+    let h : HLH := BitVec.ofNat 32 n
+    let r ← match setter with
+      | "none" => some h
+      | "id" => some (Gen.HLHeader.with_id h (BitVec.ofNat 32 v))
+      | "type" => some (Gen.HLHeader.with_type h (BitVec.ofNat 32 v))
+      | "version" => some (Gen.HLHeader.with_version h (BitVec.ofNat 32 v))
+      | _ => none
+    pure (hlFields r)
+  | ["frame", seq, fl, hdr, d] => do
+    let seq ← seq.toNat?; let fl ← fl.toNat?; let hdr ← parseHdr hdr; let d ← parseHex d
+    let p : HLPacket := ⟨hdr, d⟩
+    pure (toHex (Frame.stamp seq (Frame.mkData fl p (p.serialize.length + 5))).serialize)
+  | ["deframe", d] => do
+    let d ← parseHex d
+    match Frame.deserialize d with
+    | .ok (f, rest) => pure ("ok " ++ showFrame f ++ " rest=" ++ toHex rest)
+    | .error e => pure ("err " ++ showErr e)
+  | ["refdecode", d] => do
+    let d ← parseHex d
+    match Ref.decode d with
+    | some (f, rest) => pure s!"ok len={f.length} flags={f.flags} body={toHex f.body} rest={toHex rest}"
+    | none => pure "reject"
+  | ["ack", seq, r] => do
+    let seq ← seq.toNat?
+    pure (toHex (Frame.ack seq (r == "1")).serialize)
+  | _ => none
 
 def handle : List String → String
   | ["crc8", init, d] =>
@@ -23,6 +86,9 @@ def handle : List String → String
     match parseHex d with
     | some bs => hex16 (spec kermit (bv bs)).toNat
     | none => "bad-op"
-  | _ => "bad-op"
+  | toks =>
+    match handleFrame toks with
+    | some r => r
+    | none => "bad-op"
 
 end Zboss.Ops
